@@ -1,5 +1,6 @@
 import BevySyncModel.Proofs.Conn
 import BevySyncModel.Proofs.Budget
+import BevySyncModel.Proofs.World
 import BevySyncModel.Generated.Conn
 import BevySyncModel.Generated.Sync
 import BevySyncModel.Generated.Snap
@@ -24,6 +25,17 @@ channel, and the spawn precedes the components of an entity -/
 theorem C15_snapshot_delivery_tie :
     Generated.snapSentInOrderThenFinished = true ∧ Generated.recvHandlesEveryMessage = true ∧
     Generated.snapSpawnBeforeComponents = true := by decide
+
+/-- **"by the end of that frame its synchronized entities, components and parent links equal the host's snapshot".** The
+snapshot and `FinishedInitialSync` travel in order on one reliable channel and the receive loop handles every message it
+takes (tie above), so when the marker is handled every message of the snapshot has been; applied in order by a fresh
+joiner they rebuild the host's world exactly (`Slice/World.lean`, any number of archetypes, entities, components, links) -/
+theorem C15_content_at_finished (w : WorldSnap.World) (hw : WorldSnap.WF w) :
+    let c := WorldSnap.applyAll {} (WorldSnap.snapshot w)
+    c.ents = WorldSnap.uuids w ∧
+    (∀ e ∈ WorldSnap.allEnts w, ∀ t, WorldSnap.getComp c e.uuid t = e.vals.lookup t) ∧
+    (∀ e ∈ WorldSnap.allEnts w, WorldSnap.getParent c e.uuid = e.parent) :=
+  WorldSnap.snapshot_rebuilds w hw
 
 /-- the invariants hold in every state reachable by any sequence of start-hosting / stop / connect /
 disconnect / reconnect operations, handshake events and frames -/
